@@ -123,6 +123,8 @@ class SimFS:
         self.seq = 0
         self.open_handles = []
         self.fds = {}            # fake file descriptor -> handle (fileno() of simulated handles)
+        self.meta = {}           # path -> [inode, sequence number of the last modification] (what stat() shows)
+        self.ninodes = 0
 
     # -- helpers -----------------------------------------------------------------------------
     def _next_seq(self):
@@ -132,8 +134,26 @@ class SimFS:
     def add_file(self, path, data, read_only=True):
         assert path.startswith(PREFIX)
         self.files[path] = bytearray(data)
+        self.new_inode(path)
         if read_only:
             self.read_only.add(path)
+
+    def new_inode(self, path):
+        self.ninodes += 1
+        self.meta[path] = [self.ninodes, self._next_seq()]
+
+    def touch(self, path):
+        m = self.meta.get(path)
+        if m is None:
+            self.new_inode(path)
+        else:
+            m[1] = self._next_seq()
+
+    def replace_content(self, path, data):
+        """Another file takes the place of `path` (copied / moved over it from outside the process under test):
+        new inode, new modification time."""
+        self.files[path] = bytearray(data)
+        self.new_inode(path)
 
     def exists(self, path):
         return path in self.files
@@ -158,6 +178,7 @@ class SimFS:
         entry = (self._next_seq(), path, hid, 'ftrunc', size, b'', _thread_name())
         self.oslog.append(entry)
         SimFS.apply(f, entry)
+        self.touch(path)
 
     def os_rename(self, src, dst):
         if src not in self.files:
@@ -167,6 +188,8 @@ class SimFS:
         _yp('w.rename')
         self.oslog.append((self._next_seq(), dst, 0, 'rename', 0, src, _thread_name()))
         self.files[dst] = self.files.pop(src)
+        if src in self.meta:
+            self.meta[dst] = self.meta.pop(src)
 
     def os_remove(self, path):
         if path not in self.files:
@@ -176,6 +199,7 @@ class SimFS:
         _yp('w.remove')
         self.oslog.append((self._next_seq(), path, 0, 'remove', 0, b'', _thread_name()))
         del self.files[path]
+        self.meta.pop(path, None)
 
     @staticmethod
     def replay(oslog, upto=None, torn=None):
@@ -230,12 +254,16 @@ class SimFS:
         elif base == 'w':
             self.files[path] = bytearray()
             self.oslog.append((self._next_seq(), path, hid, 'trunc', 0, b'', _thread_name()))
+            self.touch(path)
         elif base == 'x':
             if path in self.files:
                 raise FileExistsError(errno.EEXIST, 'File exists', path)
             self.files[path] = bytearray()
+            self.new_inode(path)
         elif base == 'a':
-            self.files.setdefault(path, bytearray())
+            if path not in self.files:
+                self.files[path] = bytearray()
+                self.new_inode(path)
         else:
             raise ValueError(f'invalid mode: {mode!r}')
         raw = SimRaw(self, path, hid, readable=plus or base == 'r', append=(base == 'a'))
@@ -333,6 +361,7 @@ class SimRaw(io.RawIOBase):
         entry = (self.fs._next_seq(), self.path, self.hid, 'write', self._pos, data, _thread_name())
         self.fs.oslog.append(entry)
         SimFS.apply(f, entry)
+        self.fs.touch(self.path)
         self._pos += len(data)
         return len(data)
 
@@ -412,6 +441,33 @@ class SimWriteHandle:
 
     def fileno(self):
         return self._fs.fd_of(self)
+
+    def _raw(self):
+        return getattr(self._buf, 'raw', self._buf)
+
+    def os_write(self, data, offset=None):
+        """os.write / os.pwrite on this handle's descriptor: straight to the OS, past the user-space buffer of
+        the file object (whose own idea of the position is not updated, as with a real descriptor)."""
+        _yp('w.oswrite', info=(self._hid,), advance=LAT_LOCAL_WRITE)
+        raw = self._raw()
+        if raw.closed:
+            self._log('write-closed')
+            raise OSError(errno.EBADF, 'Bad file descriptor')
+        data = bytes(data)
+        if offset is None:
+            off = len(self._fs.files[self._path]) if raw._append else raw._pos
+            n = raw.write(data)
+        else:
+            keep = raw._pos
+            raw._pos = off = offset
+            app, raw._append = raw._append, False
+            try:
+                n = raw.write(data)
+            finally:
+                raw._pos = keep
+                raw._append = app
+        self._log('write', off, len(data), data)
+        return n
 
     def os_flush(self):
         """What os.fsync(fd) sees: nothing of the user-space buffer (that needs flush() first)."""
